@@ -125,6 +125,65 @@ def check_no_guard_dropped_in_ctor(ctx, F, guard_adt, new):
         ctx.ok('R5', role, new.defpath, 'no drop of a %s on any of %d paths' % (guard_adt.rsplit('::', 1)[-1], len(paths or [])), key=key)
 
 
+_GROW_ONLY = {'extend_from_slice', 'extend', 'push', 'copy_from_slice', 'clone_from_slice', 'insert', 'index_mut', 'deref_mut', 'as_mut_slice', 'iter_mut', 'fill',
+              'swap', 'as_mut', 'reserve', 'push_str', 'get_mut', 'split_at_mut', 'last_mut', 'first_mut', 'as_mut_ptr', 'borrow_mut', 'append'}
+
+
+def _field_ops(F, r, root, depth):
+    """(field, operation) for every mutation below `root` on path r: 'assign' for an assignment, the method name for a call that
+    takes the field by `&mut`; crate-local helpers are opened `depth` level(s) with the parameter standing for the field."""
+    n = len(root)
+    for e in r.events:
+        if e['kind'] == 'write' and e['path'][:n] == root:
+            rest = e['path'][n:]
+            if not rest:
+                yield None, 'assign'
+            elif rest[0][0] == 'f':
+                yield rest[0][1], ('assign' if len(rest) == 1 else 'index_mut')
+        if e['kind'] == 'call' and e.get('mut_paths'):
+            for mp in e['mut_paths']:
+                if mp[:n] != root:
+                    continue
+                rest = mp[n:]
+                f = rest[0][1] if rest and rest[0][0] == 'f' else None
+                if rest and rest[0][0] != 'f':
+                    continue
+                name = e['callee'].split('::')[-1]
+                callee = F.by_def.get(e['callee'])
+                if callee is not None and depth > 0 and callee.promoted is None:
+                    # which parameter stands for the field?
+                    idx = [i for i, a in enumerate(e['args']) if isinstance(a, tuple) and a and a[0] == 'ref' and tuple(a[1]) == tuple(mp)]
+                    try:
+                        _, cp = rules.evaluate(callee)
+                    except Exception:
+                        cp = None
+                    if idx and cp:
+                        sub = set()
+                        for cr in cp:
+                            if cr.end != 'return':
+                                continue
+                            for _, op in _field_ops_param(F, cr, (idx[0] + 1, 'deref')):
+                                sub.add(op)
+                        for op in sub or {name}:
+                            yield f, op
+                        continue
+                yield f, name
+
+
+def _field_ops_param(F, r, root):
+    n = len(root)
+    for e in r.events:
+        if e['kind'] == 'write' and e['path'][:n] == root:
+            yield None, ('assign' if len(e['path']) == n else 'index_mut')
+        if e['kind'] == 'call' and e.get('mut_paths'):
+            for mp in e['mut_paths']:
+                if mp[:n] == root:
+                    yield None, e['callee'].split('::')[-1]
+    # mutations inside loops show up as havocked store entries only; a loop body cannot be enumerated here
+    if any(e['kind'] == 'loop_enter' for e in r.events):
+        yield None, 'loop'
+
+
 def check_clone_complete(ctx, F, adt):
     """A clone (and a `clone_from`) of a coder copies *every* field.  The derived impl does; a hand-written one is accepted when
     `clone` builds the literal from clones / copies of the same-named fields and `clone_from`, if it is overridden, assigns or
@@ -166,19 +225,25 @@ def check_clone_complete(ctx, F, adt):
         for r in px or []:
             if r.end != 'return':
                 continue
-            done = set()
-            for e in r.events:
-                if e['kind'] == 'write' and e['path'][:2] == (1, 'deref') and len(e['path']) >= 3 and e['path'][2][0] == 'f':
-                    done.add(e['path'][2][1])
-                if e['kind'] == 'call' and e.get('mut_paths'):
-                    for mp in e['mut_paths']:
-                        if mp[:2] == (1, 'deref') and len(mp) >= 3 and mp[2][0] == 'f':
-                            done.add(mp[2][1])
-                        if mp == (1, 'deref'):
-                            done |= set(fields)
-            missing = [f for f in fields if f not in done and 'PhantomData' not in F.ty_s(next(fl['ty'] for fl in F.adts[adt]['variants'][0]['fields'] if fl['name'] == f))]
-            if missing:
-                bad = 'clone_from() leaves field `%s` as it was: after `a.clone_from(&b)` the coder is a mixture of the two (b\'s buffer with a\'s %s), so a snapshot refreshed this way exports and continues differently from its source' % (missing[0], missing[0])
+            ops = {}
+            for f, op in _field_ops(F, r, (1, 'deref'), 1):
+                if f is None:
+                    for g in fields:
+                        ops.setdefault(g, set()).add(op)
+                else:
+                    ops.setdefault(f, set()).add(op)
+            for f in fields:
+                if 'PhantomData' in F.ty_s(next(fl['ty'] for fl in F.adts[adt]['variants'][0]['fields'] if fl['name'] == f)):
+                    continue
+                o = ops.get(f, set())
+                if not o:
+                    bad = 'clone_from() leaves field `%s` as it was: after `a.clone_from(&b)` the coder is a mixture of the two (b\'s buffer with a\'s %s), so a snapshot refreshed this way exports and continues differently from its source' % (f, f)
+                elif o & {'assign', 'clone_from'}:
+                    continue
+                elif o <= _GROW_ONLY:
+                    bad = 'clone_from() only overwrites and appends to field `%s` (%s): nothing on the path can shorten it, so refreshing from a shorter source leaves the old tail behind' % (f, ', '.join(sorted(o)))
+                else:
+                    unk = 'clone_from() rebuilds field `%s` through %s, a form the rule does not read' % (f, ', '.join(sorted(o)))
     if bad:
         return ctx.bad('R7', role, b.defpath, bad, key=key, loc=rules.loc(b))
     if unk:
@@ -465,6 +530,8 @@ def check_encoder_guard(ctx, F):
         return
     check_no_guard_dropped_in_ctor(ctx, F, parts.get('guard'), new)
     bulk = (1, 'deref', ('f', 'bulk'))
+    uroot = tuple(parts.get('unseal_root') or (1, 'deref'))
+    ubulk = uroot + (('f', 'bulk'),)
     evs, ps = rules.evaluate(seal)
     evn, pnsw = rules.evaluate(nsw)
     for b in (seal, nsw, unseal, new, drop, isempty, into):
@@ -509,7 +576,7 @@ def check_encoder_guard(ctx, F):
     evu, pu = rules.evaluate(unseal)
     k = 'R5/unseal-count/stream::queue::RangeEncoder'
     try:
-        su = effects.summarise(evu, pu, lambda e: 1 if is_call_on(e, '::pop', bulk) else None)
+        su = effects.summarise(evu, pu, lambda e: 1 if is_call_on(e, '::pop', ubulk) else None)
         rets = [s for s in su if s.end == 'return']
         want = None
         ok = bool(rets)
@@ -518,7 +585,7 @@ def check_encoder_guard(ctx, F):
             if s.count[1] != 0 or len(atoms) != 1 or atoms[0][0] != 1 or not (atoms[0][1][0] == 'call' and atoms[0][1][1] == nsw.defpath):
                 ok = False
                 want = sym.affine_str(s.count)
-        fvu = frame_violations(pu, (1, 'deref'), {'bulk'})
+        fvu = frame_violations(pu, uroot, {'bulk'})
         if ok and not fvu:
             ctx.ok('R5', 'unseal pops exactly num_seal_words() words', unseal.defpath, 'loop 0..num_seal_words() with one pop per iteration; frame ⊆ {bulk}', key=k)
         else:
@@ -550,7 +617,7 @@ def check_encoder_guard(ctx, F):
                 bad = 'empty encoder is sealed although drop will pop num_seal_words() == 0 words'
     evd, pdr = rules.evaluate(drop)
     dcalls = [e for r in pdr for e in r.events if e['kind'] == 'call' and e.get('uid') is not None]
-    if len(pdr) != 1 or len(dcalls) != 1 or dcalls[0]['callee'] != unseal.defpath:
+    if unseal is not drop and (len(pdr) != 1 or len(dcalls) != 1 or dcalls[0]['callee'] != unseal.defpath):
         bad = 'drop is not exactly one call to unseal'
     # is_empty() true  =>  range == max  => num_seal_words path returning 0
     eve, pe = rules.evaluate(isempty)
@@ -713,12 +780,77 @@ def _norm_state(t, base):
     return t
 
 
+def check_no_effect_in_debug_assert(ctx, F):
+    """`debug_assert!(..)` (and its _eq/_ne forms) vanishes in builds without debug assertions, operands included.  A call inside
+    it that takes `&mut` to anything but a temporary is a side effect that exists in test builds only: the pinned suite runs with
+    debug assertions and sees the effect, a release build does not (an `unseal` whose pop sits inside the assertion leaves the
+    seal words behind).  The region is read off the MIR: the blocks reached through the taken side of the `cfg!(debug_assertions)`
+    switch that the macro expands to, up to its join block."""
+    import os
+    n = 0
+    src_cache = {}
+
+    def src_at(at):
+        try:
+            f, l, c = at.split('-')[0].rsplit(':', 2)
+            path = f if os.path.isabs(f) else os.path.join(F.info.get('repo', '/repo') if hasattr(F, 'info') and isinstance(F.info, dict) else os.environ.get('VERIF_REPO', '/repo'), f)
+            if path not in src_cache:
+                src_cache[path] = open(path, encoding='utf-8', errors='replace').read().splitlines()
+            return src_cache[path][int(l) - 1][int(c) - 1:]
+        except Exception:
+            return ''
+    for b in F.bodies:
+        if b.promoted is not None or '::tests::' in b.defpath or b.dk not in ('Fn', 'AssocFn', 'Closure'):
+            continue
+        for i, bl in enumerate(b.blocks):
+            t = bl['term']
+            sp = t.get('span') or {}
+            if t['k'] != 'switch' or not sp.get('exp') or 'core/src/macros' not in (sp.get('inner') or ''):
+                continue
+            if not src_at(sp['at']).startswith('debug_assert'):
+                continue
+            targets = [tb for v, tb in t['targets']]
+            if len(targets) != 1:
+                continue
+            join, inside = targets[0], t['otherwise']          # switchInt(flag) -> [0: join, otherwise: inside]
+            n += 1
+            key = 'R1/no-effect-in-debug-assert/%s#%d' % (b.defpath, n)
+            from vlib import cfg as cfgmod
+            g = cfgmod.CFG(b)
+            dom = g.dominators()
+            seen = {x for x in dom if inside in dom[x]}
+            bad = None
+            if len(g.pred[inside]) != 1:
+                seen = set()
+            for x in sorted(seen):
+                tt = b.blocks[x]['term']
+                if tt['k'] in ('call', 'tailcall'):
+                    c = facts_callee_def(tt)
+                    for a in tt['args']:
+                        if a.get('k') in ('move', 'copy') and not a['place']['p']:
+                            ty = b.facts.ty(b.local_ty(a['place']['l']))
+                            if ty.get('k') == 'ref' and ty.get('mut') and not (c or '').startswith(('core::fmt', 'core::panicking')):
+                                bad = (c, tt['span']['at'].split('-')[0])
+            role = 'nothing inside debug_assert! takes `&mut`'
+            if bad:
+                ctx.bad('R1', role, b.defpath, 'the call %s inside a debug_assert! receives a mutable reference: it is executed only in builds with debug assertions (the test suite), so release builds skip the effect' % bad[0], key='R1/no-effect-in-debug-assert/' + b.defpath, loc=bad[1])
+            else:
+                ctx.ok('R1', role, b.defpath, '%d block(s) inside the assertion, no call with a `&mut` argument' % len(seen), key=key)
+    ctx.extra['debug_assert_regions'] = n
+
+
+def facts_callee_def(t):
+    from vlib import facts
+    return facts.callee_def(t)
+
+
 def run(ctx):
     F = ctx.F
     check_inspectors(ctx, F)
     check_coder_guard(ctx, F)
     check_encoder_guard(ctx, F)
     check_bit_guards(ctx, F)
+    check_no_effect_in_debug_assert(ctx, F)
     if ctx.tier == 'thorough':
         from vlib import witness
         witness.run(ctx, 'C08')
